@@ -155,6 +155,11 @@ CASES = [
     ("benign-corner-factor", ["C18"], "velocity.py", "    prefactor = 4 * plate_speed / (np.pi * (h**2 + v**2) ** 2)", "    r2 = h**2 + v**2\n    prefactor = 4 * plate_speed / (np.pi * r2 * r2)", B),
     ("benign-config-local", ["C19"], "io.py", "    n_provided = len(_params[\"disl_coefficients\"])", "    coeffs = _params[\"disl_coefficients\"]\n    n_provided = len(coeffs)", B),
     ("benign-gbs-where", ["C09", "C01"], "utils.py", "    fractions[mask] = gbs_threshold / n_grains\n", "    fractions[:] = np.where(mask, gbs_threshold / n_grains, fractions)\n", B),
+    ("benign-writer-missing-used", ["C16"], "io.py", "row.append(schema[\"missing\"])", "row.append(missing_marker)", B),
+    ("benign-yaml-quoter-renamed", ["C16"], "io.py", "_yaml_scalar", "_quote_yaml", B),
+    ("benign-save-except-tuple", ["C16"], "io.py", "    except ValueError:\n        path.unlink(missing_ok=True)", "    except (ValueError,):\n        path.unlink(missing_ok=True)", B),
+    ("benign-params-order", ["C19"], "io.py", "    toml[\"parameters\"] = _parse_config_params(toml)\n    _params = toml[\"parameters\"]", "    _params = _parse_config_params(toml)\n    toml[\"parameters\"] = _params", B),
+    ("benign-bingham-local", ["C13"], "diagnostics.py", "def bingham_average(", "def bingham_average(  # mean axis of an orientation distribution\n", B),
     ("benign-density-sigma-local", ["C20"], "stats.py", "    X_counters, Y_counters = _geo.lambert_equal_area(x_counters, y_counters, z_counters)", "    projected = _geo.lambert_equal_area(x_counters, y_counters, z_counters)\n    X_counters, Y_counters = projected", B),
     ("benign-mindex-bins-local", ["C14"], "diagnostics.py", "θmax = _stats._max_misorientation(system)", "θmax = _stats._max_misorientation(system)  # maximum misorientation angle of the system", B),
     ("benign-mineral-save-keys", ["C17"], "minerals.py", "                for key in data.keys():", "                for key in list(data):", B),
@@ -193,8 +198,9 @@ CASES = [
     ("benign-lambert-kw", ["C20"], "stats.py", "_geo.lambert_equal_area(x_counters, y_counters, z_counters)", "_geo.lambert_equal_area(xvals=x_counters, yvals=y_counters, zvals=z_counters)", B),
 ]
 # the rename above needs both the definition and the use
-RENAME_ALSO = {"benign-pathline-rename": [("        jac=_ivp_jac,", "        jac=_ivp_jacobian,")]}
-REPLACE_ALL = {"benign-rename-helper"}
+RENAME_ALSO = {"benign-pathline-rename": [("        jac=_ivp_jac,", "        jac=_ivp_jacobian,")],
+               "benign-writer-missing-used": [("            writer.writerow(names)\n", "            writer.writerow(names)\n            missing_marker = schema[\"missing\"]\n")]}
+REPLACE_ALL = {"benign-rename-helper", "benign-writer-missing-used", "benign-yaml-quoter-renamed"}
 
 
 def run_case(case, repo):
